@@ -712,7 +712,7 @@ impl Property for C28 {
         "without overlap the only requirement on the server is that no cookies are issued",
     ];
     const QUICK_CASES: u32 = 150_000;
-    const THOROUGH_CASES: u32 = 1_200_000;
+    const THOROUGH_CASES: u32 = 3_700_000;
 
     fn strategy(_tier: Tier) -> BoxedStrategy<Case> {
         case()
